@@ -38,4 +38,18 @@ MORE3 = {
              "from/to_signed_bytes_be), which are listed as assumptions: the proof shows the repository's glue code is backend-independent.",
         tech="contract-based deductive verification (Verus): two implementations against one contract over abstract integer values",
         ref="4/C06"),
+    "C20": dict(
+        text="Partial proof (Verus + Kani) of the totality and recognisability clauses: deserialize_2026_body_from_stream, "
+             "deserialize_2026_from_stream, deserialize_2026 and serialized_length_serde_2026 are verified panic-free for every byte string "
+             "(every index, unwrap, cast, checked arithmetic and allocation is a discharged obligation), a successful decode has consumed "
+             "exactly body_end(...) bytes and the length probe succeeds exactly when body_end is defined and returns 6 + body_end, so the probe "
+             "equals the bytes consumed whenever decoding succeeds; a lemma shows the classic grammar (which node_from_bytes and "
+             "tree_hash_from_stream are proved to implement) rejects every blob starting with the magic prefix 0xfd 0xff. Varints (C21) are "
+             "proved by Kani and enter as an assumed contract with exactly that statement. The round-trip clause is NOT decided: "
+             "serialize_2026 interns atoms and pairs through HashMaps, outside Verus's fragment; the back-reference decoder's rejection of the "
+             "prefix is not under contract.",
+        note=TB + "Six small std calls (usize::try_from, Vec::resize, read_exact into a Vec, Vec::get().ok_or, checked_neg/checked_sub, "
+             "slice::starts_with) are routed through stubs whose contracts restate the std documentation (listed).",
+        tech="contract-based deductive verification (Verus): decoder and length probe against one recursive length specification; Kani for the varint codec",
+        ref="4/C20, 11.9"),
 }
